@@ -433,6 +433,25 @@ impl<T: Wire, const N: usize> Wire for [T; N] { open spec fn bytes(&self) -> Seq
             proof { lemma_concat_take_step(self@, __it.index@ as int); }
 //@ end
 
+// VecDeque: the hash depends on the element SEQUENCE (the view), not on where the ring buffer wraps (rule R16)
+impl<T: Wire> Wire for std::collections::VecDeque<T> { open spec fn bytes(&self) -> Seq<u8> { seq_bytes(self@) } }
+//@ impl crates/stable_hash/src/lib.rs :: impl<T: StableHash> StableHash for std::collections::VecDeque<T>
+//@ extra
+    proof fn prefix_free(a: &Self, b: &Self, ta: Seq<u8>, tb: Seq<u8>) {
+        let (x, y) = (a.len(), b.len());
+        lemma_seq_bytes_prefix_free(a@, b@, ta, tb);
+    }
+//@ member stable_hash
+//@ head
+        broadcast use lemma_take_all, lemma_take0, lemma_cat_empty;
+//@ loop 0 iter __it
+//@ loop 0 itercall
+//@ loop 0 inv
+            invariant state.written() =~= old(state).written() + (self@.len() as usize).lei() + concat(self@.take(__it.index@ as int)),
+//@ loop 0 head
+            proof { lemma_concat_take_step(self@, __it.index@ as int); }
+//@ end
+
 //@ impl crates/stable_hash/src/lib.rs :: impl<T: StableHash> StableHash for [T]
 //@ extra
     proof fn prefix_free(a: &Self, b: &Self, ta: Seq<u8>, tb: Seq<u8>) {
